@@ -60,7 +60,8 @@ fn one(map: &SymbolMap<MemHelper>, enumerated: &std::collections::HashMap<u32, S
         None => "N".to_string(),
         Some(info) => {
             let (name_ok, en) = match enumerated.get(&info.symbol.address) {
-                Some(raw) => ((demangle_any(raw) == info.symbol.name || *raw == info.symbol.name) as u8, 1),
+                // the property: the name is the demangled form of the enumerated entry's name (not merely the raw name)
+                Some(raw) => ((demangle_any(raw) == info.symbol.name) as u8, 1),
                 None => (0, 0),
             };
             format!("{}:{}:{}:{}", info.symbol.address, info.symbol.size.map(|s| s.to_string()).unwrap_or("-".into()), name_ok, en)
